@@ -109,7 +109,8 @@ KT = KQ + ("W3", "W0", "CO", "BL", "WT", "NLI", "CD", "CEE", "UP", "LO")
 
 
 def items(tier):
-    return common.pipe_items(tier, KQ, KT, k1=True)
+    # + for every (quick: every third) rule on its own fixture: fixable:false, severity:Warning, disable:true (the never-change classes)
+    return common.pipe_items(tier, KQ, KT, k1=True) + [it for it in configs_k1.items_for_own_fixtures(limit_values=0, generic=3 if tier == "quick" else 1) if ".fixable=" in it["id"] or ".severity=" in it["id"] or ".disable=true" in it["id"]]
 
 
 def reproduce(item):
